@@ -4,6 +4,7 @@
 mod util;
 mod m_canon;
 mod m_depfile;
+mod m_load;
 mod m_db;
 mod m_render;
 mod m_sched;
@@ -30,6 +31,7 @@ fn main() {
         "depfile" => m_depfile::run(&mut ctx),
         "render" => m_render::run(&mut ctx),
         "db" => m_db::run(&mut ctx),
+        "load" => m_load::run(&mut ctx),
         "sched" => m_sched::run(&mut ctx),
         _ => {
             eprintln!("unknown mode {mode}");
